@@ -119,6 +119,8 @@ def main(argv):
     cm = ",".join(cfg.get("contracts", []))
     targets = [t for t, fs in REG.funs.items() if pid in fs.properties and not fs.trusted and not t.startswith("ext:")]
     jobs = [(cm, t, timeout_ms, None if REPO == "/repo" else REPO) for t in targets]
+    if tier == "thorough":
+        os.environ["PYVC_CROSS"] = "1"  # every discharged query is also put to the command-line solvers (agreement run)
     results = []
     if jobs:
         from checks.pyvc_worker import _entry
@@ -195,6 +197,17 @@ def main(argv):
     # ------------------------------------------------------------------ 3b. thorough: run-time monitoring of the contracts
     monitoring = None
     crash = []
+    cross = {"queries": 0, "verdicts": {}, "disagree": []}
+    for r in results:
+        c = r.get("cross") or {}
+        cross["queries"] += c.get("queries", 0)
+        for name, d in (c.get("verdicts") or {}).items():
+            agg_d = cross["verdicts"].setdefault(name, {"unsat": 0, "unknown": 0, "sat": 0})
+            for k, v in d.items():
+                agg_d[k] += v
+        cross["disagree"].extend(c.get("disagree") or [])
+    for oid, solver in cross["disagree"][:5]:
+        crash.append(f"solver disagreement: {solver} finds the discharged query of {oid} satisfiable")
     if tier == "thorough" and targets:
         outp = os.path.join(ROOT, "tmp", f"monitor-{pid}.json")
         os.makedirs(os.path.dirname(outp), exist_ok=True)
@@ -313,6 +326,7 @@ def main(argv):
         "known_findings_printed": known_printed,
         "bounded": bounded,
         "runtime_monitoring_under_repo_tests": monitoring,
+        "cross_solver_agreement": (cross if cross["queries"] else None),
         "samples": samples or [{"note": "no obligations"}],
         "explanation": cfg.get("explanation", ""),
         "evaluations": max(1, n_obl + (hres.get("evaluations", 0) if hres else 0)),
